@@ -206,6 +206,8 @@ fn main() {
             let diff = (va * units.oracle_factor(&a.factors) / fe - vb * units.oracle_factor(&b.factors) / fe).abs();
             let d0 = if diff.is_finite() && diff > 0.0 { diff } else { 1.0 };
             let ve = match rng.below(9) { 0 => d0 * 0.5, 1 => d0 * 0.999999, 2 => d0 * 1.000001, 3 => d0 * 2.0, 4 => 0.0, 5 => f64::NAN, 6 => -d0, 7 => d0 * 1e3, _ => d0 * (0.5 + rng.unit_f64()) };
+            // one tolerance in sixteen is the literal zero without a unit
+            let (ve, ue) = if rng.chance(1, 16) { (0.0, Vec::new()) } else { (ve, ue) };
             run_case(&ctx, &units, &mut out, &Case::Eq3(a, b, q(ve.to_bits(), ue)));
         }
     }
